@@ -1,7 +1,7 @@
 """Driver configuration for C03."""
 
 CFG = dict(
-    tests=["c01:TestC03", "c08:TestC03Obs", "c08:TestC03Quorum"],
+    tests=["c01:TestC03", "c08:TestC03Obs", "c08:TestC03Quorum", "c08:TestC03Limits"],
     case_files={"cases_outcome": "c01:TestC03", "cases_obs": "c08:TestC03Obs"},
     n_quick=40, n_thorough=150, shards_thorough=4, timeout_quick=900, timeout_thorough=3000,
     rule="three parts: (1) outcome clauses on the C01 rounds (boundary families + VERIF_N random rounds): K03 = the real outcome passes the "
